@@ -138,7 +138,7 @@ func (c07Prop) Execute(p *Plan, run *Run) any {
 	codec := c.Codec()
 
 	// ---- fault-free clause
-	full := readAll(target, NewDiskReader(data, pl.Chunks), -1, nil)
+	full := readAll(target, openReader(data, pl.Chunks), -1, nil)
 	run.Evals++
 	var total int64
 	cum := make([]int64, len(c.Blocks)+1) // records before block j
@@ -256,7 +256,7 @@ func (c07Prop) Execute(p *Plan, run *Run) any {
 			if s.Off < c.SyncOff || s.Off >= len(data) {
 				continue
 			}
-			out := readAll(target, NewDiskReader(flip(s.Off, s.Bit), pl.Chunks), -1, nil)
+			out := readAll(target, openReader(flip(s.Off, s.Bit), pl.Chunks), -1, nil)
 			run.Evals++
 			executed++
 			j := blockOfOff(s.Off)
@@ -296,7 +296,7 @@ func (c07Prop) Execute(p *Plan, run *Run) any {
 			if j < 0 {
 				continue
 			}
-			out := readAll(target, NewDiskReader(flip(s.Off, s.Bit), pl.Chunks), -1, nil)
+			out := readAll(target, openReader(flip(s.Off, s.Bit), pl.Chunks), -1, nil)
 			run.Evals++
 			executed++
 			run.Faults.Inc("S-flip(snappy-crc)")
@@ -339,7 +339,7 @@ func (c07Prop) Execute(p *Plan, run *Run) any {
 				run.Log.Add("payload off=%d bit=%d accepted", s.Off, s.Bit)
 				continue
 			}
-			out := readAll(target, NewDiskReader(d, pl.Chunks), -1, nil)
+			out := readAll(target, openReader(d, pl.Chunks), -1, nil)
 			run.Evals++
 			executed++
 			run.Faults.Inc("S-flip(compressed-payload)")
@@ -363,7 +363,7 @@ func (c07Prop) Execute(p *Plan, run *Run) any {
 			if s.Off > 3 {
 				continue
 			}
-			out := readAll(target, NewDiskReader(flip(s.Off, s.Bit), pl.Chunks), -1, nil)
+			out := readAll(target, openReader(flip(s.Off, s.Bit), pl.Chunks), -1, nil)
 			run.Evals++
 			executed++
 			run.Faults.Inc("S-flip(magic)")
@@ -400,7 +400,7 @@ func (c07Prop) Execute(p *Plan, run *Run) any {
 			}
 		}
 		d := ref.WriteContainer(ref.Magic, meta, c.Sync, blocks)
-		out := readAll(target, NewDiskReader(d, pl.Chunks), -1, nil)
+		out := readAll(target, openReader(d, pl.Chunks), -1, nil)
 		run.Evals++
 		executed++
 		run.Faults.Inc("S-meta(" + pl.Family + ")")
@@ -448,7 +448,7 @@ func (c07Prop) Execute(p *Plan, run *Run) any {
 			if i >= len(D) {
 				continue
 			}
-			out := readAll(target, NewDiskReader(data, pl.Chunks), i, errCallback)
+			out := readAll(target, openReader(data, pl.Chunks), i, errCallback)
 			run.Evals++
 			executed++
 			run.Faults.Inc("CB-err(i)")
